@@ -701,14 +701,12 @@ func (i StaticInspector) Reset(x any) error {
 		p := x.([]byte)
 		x = p[:0]
 	case *[]byte:
-		p := *x.(*[]byte)
-		p = p[:0]
-		x = &p
+		p := x.(*[]byte)
+		*p = (*p)[:0]
 	case string:
 		x = ""
 	case *string:
-		var s string
-		x = &s
+		*x.(*string) = ""
 	}
 	return nil
 }
